@@ -10,7 +10,6 @@ import (
 	"strconv"
 	"strings"
 	"testing"
-	"time"
 	"unicode/utf16"
 
 	"github.com/mithrandie/csvq/lib/option"
@@ -657,8 +656,6 @@ func (c loadCase) optClass() string {
 // data-level rejections: the loader looked at the bytes and refused them.
 var rejectionNumbers = map[string]bool{"E10001": true, "E10701": true, "E10702": true, "E10704": true, "E11301": true}
 
-var slowLog = os.Getenv("C19_SLOW")
-
 var loadDir string
 
 func loadScratch() string {
@@ -695,17 +692,6 @@ func checkLoad(c loadCase) (fw.Outcome, *fw.Violation) {
 			return o, fw.Harness("write %s: %v", path, err)
 		}
 	}
-	started := time.Now()
-	if slowLog == "2" {
-		b, _ := json.Marshal(c)
-		_ = os.WriteFile("/tmp/c19-current.json", b, 0644)
-	}
-	defer func() {
-		if d := time.Since(started); slowLog != "" && d > 300*time.Millisecond {
-			b, _ := json.Marshal(c)
-			fmt.Fprintf(os.Stderr, "SLOW %v %s\n", d, clip(string(b), 700))
-		}
-	}()
 	res := execGuarded(opt, sql, func(s *run.Sess, eo *execOut) {
 		// the loaded tables themselves, not only what SELECT * made of them
 		if path != "" {
